@@ -30,7 +30,12 @@ STUB = ['byte sources SimFile/SimBytesIO/SimPipe', 'producer (deliver/close/faul
 
 def gen_plan(r, index, tier):
     w, cfg = common.gen_stream_workload(r, max_values=4)
-    kind = r.choice(['file', 'file', 'pipe', 'pipe', 'bio'])
+    kind = r.choice(['file', 'file', 'pipe', 'pipe', 'bio', 'file', 'pipe', 'bio', 'bioqueue'])
+    if kind == 'bioqueue':
+        # a plain io.BytesIO used as a message queue: whole encodings are appended one (or a few) at a time and the
+        # SAME decoder object is iterated again after every append
+        return {'check': ID, 'workload': w, 'config': {'kind': 'bioqueue', 'threshold': None, 'prewrap': False},
+                'batches': [r.choice([1, 1, 2]) for _ in range(6)], 'steps': []}
     conf = {'kind': kind, 'threshold': None, 'prewrap': False}
     if kind == 'pipe':
         conf['threshold'] = r.choice([4, 16, 64, 8192, 8192])
@@ -147,7 +152,60 @@ def fault_partition_steps(total, code, close_with_last):
     return steps
 
 
+def _execute_queue(plan):
+    import io
+    from pyasn1 import error
+    try:
+        wl = W.Workload(plan['workload'])
+        wl.require_well_framed()
+        ref = wl.reference()
+        if len(ref) != len(wl.encodings):
+            raise W.Skip('reference-count')
+    except W.Skip as s:
+        return common.skip_result(s.reason)
+    trace = []
+    ctr = {'kind.bioqueue': 1}
+    q = io.BytesIO()
+    decoder = wl.dec_mod.StreamingDecoder(q, asn1Spec=wl.spec, **wl.dec_kw)
+    got = []
+    i = 0
+    batches = list(plan.get('batches') or [1])
+    try:
+        while i < len(wl.encodings):
+            k = batches[len(trace) % len(batches)]
+            chunk = b''.join(wl.encodings[i:i + k])
+            i += k
+            pos = q.tell()
+            q.seek(0, 2)
+            q.write(chunk)
+            q.seek(pos)
+            trace.append(['append', len(chunk)])
+            try:
+                for x in decoder:              # a new iteration over the same decoder object
+                    if isinstance(x, error.SubstrateUnderrunError):
+                        raise W.Violation('I1-unjustified-underrun', got=len(got))
+                    a = U.absval(x)
+                    if len(got) >= len(ref) or a != ref[len(got)]:
+                        raise W.Violation('I2-wrong-object', index=len(got), got=U.safe_repr(U.jsonable(a)))
+                    got.append(a)
+            except W.Violation:
+                raise
+            except Exception as ex:
+                d = W.describe_exc(ex)
+                raise W.Violation('I5-spurious-error', exc_cls=d['cls'], msg=d['msg'], site=d['site'])
+            trace.append(['drained', len(got)])
+            if len(got) != min(i, len(ref)):
+                raise W.Violation('I4-early-stop', got=len(got), expected=min(i, len(ref)), appended=i)
+    except W.Violation as v:
+        sig = [v.invariant, v.detail.get('exc_cls'), v.detail.get('site')]
+        return common.violation_result(v, sig, trace, ctr, None, None, plan['config'], wl)
+    ctr['objects_in_streams'] = len(ref)
+    return common.ok_result(trace, ctr, None, len(trace) > 2)
+
+
 def execute(plan):
+    if plan.get('config', {}).get('kind') == 'bioqueue':
+        return _execute_queue(plan)
     if plan.get('fault_partitions'):
         return _execute_fault_partitions(plan)
     if plan.get('sweep'):
